@@ -565,7 +565,8 @@ impl Range {
 
     fn from_min_max(min: f64, max: f64) -> Result<Self> {
         let range = max - min;
-        if range < 0.0 {
+        // NaN limits are rejected as well, clamping values to such a range would panic
+        if range.is_nan() || range < 0.0 {
             Error::invalid(format!("Found invalid range: min={min}, max={max}"))?;
         }
         let inv_range = 1.0 / range;
